@@ -280,6 +280,47 @@ const scaffoldType = "zz--scaffold"
 // when at == len(specs)) and removed again once all types are in: the result
 // is the same schema, reached through a longer history of edits.
 func BuildSchemaWithScaffold(specs []TypeSpec, at int) *SchemaSpec {
+	return BuildSchemaWithHistory(specs, at, -1)
+}
+
+// BuildSchemaWithHistory is BuildSchemaWithScaffold followed, when
+// readdFrom >= 0, by a few lookups and by taking out and putting back every
+// type from that index on, in order: the schema ends up with the same types
+// in the same order.
+func BuildSchemaWithHistory(specs []TypeSpec, at, readdFrom int) *SchemaSpec {
+	ss := buildSchemaWithScaffold(specs, at)
+
+	if readdFrom < 0 || readdFrom >= len(specs) {
+		return ss
+	}
+
+	// A few lookups first (whatever they build is now there), none in
+	// between the edits.
+	ss.Schema.HasType("zz--nothing")
+	ss.Schema.GetType(specs[len(specs)-1].Name)
+
+	for k := readdFrom; k < len(specs); k++ {
+		// The next type to move is at index readdFrom: those moved before it
+		// went to the end.
+		typ := ss.Schema.Types[readdFrom]
+
+		ss.Schema.RemoveType(typ.Name)
+
+		if err := ss.Schema.AddType(typ); err != nil {
+			panic(fmt.Sprintf("gen: AddType (again): %v", err))
+		}
+	}
+
+	for i := range specs {
+		if ss.Schema.Types[i].Name != specs[i].Name {
+			panic(fmt.Sprintf("gen: type %d is %q after the history, want %q", i, ss.Schema.Types[i].Name, specs[i].Name))
+		}
+	}
+
+	return ss
+}
+
+func buildSchemaWithScaffold(specs []TypeSpec, at int) *SchemaSpec {
 	ss := &SchemaSpec{Types: specs, Schema: &jsonapi.Schema{}}
 
 	scaffold := func() {
@@ -347,6 +388,8 @@ type SchemaOpts struct {
 	OddFromType        bool // one-way relationships of soft types may leave FromType empty or wrong (AddRel and Check accept that)
 	OddCardinality     bool // the two sides of a pair may disagree about cardinality (Check only compares names)
 	OddRelKeys         bool // soft types may store a relationship under a map key that is not its name (hand-written literals)
+	NoConcatTwins      bool // no relationships named so that type+name concatenations coincide across types
+	OneEmptyFromType   bool // at most one one-way relationship of a soft type leaves FromType empty (what Type.AddRel callers often do)
 }
 
 // DefaultSchemaOpts is used by most properties.
@@ -431,6 +474,7 @@ func CoherentSchema(t *rapid.T, o SchemaOpts) *SchemaSpec {
 
 	// Relationship edges.
 	relPool := append(NamePool(t, 4, "rname"), fieldPool...)
+	emptyFromTypeUsed := false
 	ne := rapid.IntRange(0, o.MaxRelEdges).Draw(t, "nedges")
 
 	for e := 0; e < ne; e++ {
@@ -451,6 +495,11 @@ func CoherentSchema(t *rapid.T, o SchemaOpts) *SchemaSpec {
 
 			if o.OddFromType && !specs[a].Struct && rapid.IntRange(0, 2).Draw(t, "oddFromType") == 0 {
 				fromType = rapid.SampledFrom([]string{"", specs[b].Name, "ghost"}).Draw(t, "fromTypeValue")
+			}
+
+			if o.OneEmptyFromType && !emptyFromTypeUsed && !specs[a].Struct && rapid.IntRange(0, 1).Draw(t, "emptyFromType") == 0 {
+				fromType = ""
+				emptyFromTypeUsed = true
 			}
 
 			specs[a].Rels = append(specs[a].Rels, jsonapi.Rel{
@@ -494,6 +543,34 @@ func CoherentSchema(t *rapid.T, o SchemaOpts) *SchemaSpec {
 		}
 	}
 
+	// Concatenation twins: when one type name continues another after a
+	// separator (a, a_b), the shorter type may get a one-way relationship
+	// x_n and the longer one n, so that "type, separator, name" reads the same
+	// for both (C16 names such pairs).
+	if o.MaxRelEdges > 0 && !o.NoConcatTwins {
+		for i := range specs {
+			for j := range specs {
+				for _, sep := range []string{"_", "-", ""} {
+					x := strings.TrimPrefix(specs[j].Name, specs[i].Name+sep)
+					if i == j || x == specs[j].Name || x == "" || rapid.IntRange(0, 1).Draw(t, "concatTwin") != 0 {
+						continue
+					}
+
+					n := rapid.SampledFrom(relPool).Draw(t, "concatTwinName")
+					long := x + sep + n
+
+					if used[i][long] || used[j][n] || reserved[long] {
+						continue
+					}
+
+					used[i][long], used[j][n] = true, true
+					specs[i].Rels = append(specs[i].Rels, jsonapi.Rel{FromType: specs[i].Name, FromName: long, ToType: specs[0].Name, ToOne: rapid.Bool().Draw(t, "concatTwinToOne")})
+					specs[j].Rels = append(specs[j].Rels, jsonapi.Rel{FromType: specs[j].Name, FromName: n, ToType: specs[0].Name})
+				}
+			}
+		}
+	}
+
 	for i := range specs {
 		sort.Slice(specs[i].Attrs, func(a, b int) bool { return specs[i].Attrs[a].Name < specs[i].Attrs[b].Name })
 		sort.Slice(specs[i].Rels, func(a, b int) bool { return specs[i].Rels[a].FromName < specs[i].Rels[b].FromName })
@@ -508,12 +585,16 @@ func CoherentSchema(t *rapid.T, o SchemaOpts) *SchemaSpec {
 
 	// One schema in four is reached through a longer history: a throw-away
 	// type is added somewhere and removed at the end.
-	at := -1
+	at, readdFrom := -1, -1
 	if rapid.IntRange(0, 3).Draw(t, "scaffold") == 0 {
 		at = rapid.IntRange(0, len(specs)).Draw(t, "scaffold-at")
 	}
 
-	return BuildSchemaWithScaffold(specs, at)
+	if rapid.IntRange(0, 5).Draw(t, "readd") == 0 {
+		readdFrom = rapid.IntRange(0, len(specs)-1).Draw(t, "readd-from")
+	}
+
+	return BuildSchemaWithHistory(specs, at, readdFrom)
 }
 
 // NewResource creates an empty resource of the type: a *Wrapper around a fresh
@@ -715,5 +796,16 @@ func IncoherentSchema(t *rapid.T) *SchemaSpec {
 		}
 	}
 
-	return BuildSchema(specs)
+	// Like coherent schemas, some are reached through a longer history of
+	// edits (a throw-away type; types taken out and put back).
+	at, readdFrom := -1, -1
+	if rapid.IntRange(0, 3).Draw(t, "scaffold") == 0 {
+		at = rapid.IntRange(0, len(specs)).Draw(t, "scaffold-at")
+	}
+
+	if rapid.IntRange(0, 5).Draw(t, "readd") == 0 {
+		readdFrom = rapid.IntRange(0, len(specs)-1).Draw(t, "readd-from")
+	}
+
+	return BuildSchemaWithHistory(specs, at, readdFrom)
 }
